@@ -423,7 +423,11 @@ func Finish(m *Monitor, env *Env, sum *Summary, wall time.Duration) int {
 	if unlistedCount > 0 {
 		os.MkdirAll(filepath.Join(env.VerifDir, "replay"), 0o755)
 		printed := map[string]int{}
+		showAll := os.Getenv("VERIF_SHOW_ALL") != ""
 		for i, w := range unlisted {
+			if showAll {
+				fmt.Printf("  [all] class=%s case=%d: %s\n", w.Class, w.Index, w.Reason)
+			}
 			if printed[w.Class] >= 3 || i >= 40 {
 				continue
 			}
